@@ -139,6 +139,25 @@ func e2eC17(repo, dir string, vals map[string]string) ([]string, error) {
 	if d := sameTree(b1, e.tree()); len(d) > 0 {
 		bad = append(bad, "run with a package pattern that does not exist changed files: "+strings.Join(d, ", "))
 	}
+	// a directive that names several things, one of which cannot be resolved (not the last one), is a fault
+	e.write("ext/in.go", "package ext\n\n// goverter:converter\n// goverter:extend Missing IntToString\ntype C interface {\n\tConvert(source In) Out\n}\ntype In struct{ A int }\ntype Out struct{ A string }\n\nfunc IntToString(i int) string { return \"\" }\n")
+	e.write("ext/generated/generated.go", "// stale\npackage generated\n")
+	b0 := e.tree()
+	for _, argv := range [][]string{{"gen", "./ext", "./good2"}, {"gen", "-g", "extend e2e/ext:Nope e2e/ext:IntToString", "./good2"}} {
+		if argv[1] == "-g" {
+			e.write("ext/in.go", "package ext\n\nfunc IntToString(i int) string { return \"\" }\n")
+			b0 = e.tree()
+		}
+		code, _, se = e.run(argv...)
+		if code != 1 || strings.TrimSpace(se) == "" {
+			bad = append(bad, fmt.Sprintf("`%s`: extend line with an unresolvable first name exits %d / empty stderr, want 1 and a diagnostic", strings.Join(argv, " "), code))
+		}
+		if d := sameTree(b0, e.tree()); len(d) > 0 {
+			bad = append(bad, "... and files were changed: "+strings.Join(d, ", "))
+		}
+	}
+	os.RemoveAll(filepath.Join(e.dir, "ext"))
+	os.RemoveAll(filepath.Join(e.dir, "good2/generated"))
 	// two packages with the same package name and the same interface name are two converters
 	for _, d := range []string{"order", "user"} {
 		e.write("dup/"+d+"/mapper/in.go", "package mapper\n\n// goverter:converter\ntype Converter interface {\n\tConvert(source In) Out\n}\ntype In struct{ A int }\ntype Out struct{ A int }\n")
@@ -285,6 +304,24 @@ func e2eC16(repo, dir string, vals map[string]string) ([]string, error) {
 			bad = append(bad, fmt.Sprintf("-output-constraint %q emitted as %q", c, got))
 		}
 	}
+	// the constraint does not depend on the build tags: with -build-tags "" the default and a custom one still appear
+	for _, c := range []struct {
+		args []string
+		want string
+	}{
+		{[]string{"gen", "-build-tags", "", "./notags"}, "//go:build !goverter"},
+		{[]string{"gen", "-build-tags", "", "-output-constraint", "!gen", "./notags"}, "//go:build !gen"},
+	} {
+		os.RemoveAll(filepath.Join(e.dir, "notags"))
+		e.write("notags/in.go", strings.Replace(e2eGood, "package good", "package notags", 1))
+		code, _, se = e.run(c.args...)
+		b, _ = os.ReadFile(filepath.Join(e.dir, "notags/generated/generated.go"))
+		ls := strings.Split(string(b), "\n")
+		if code != 0 || len(ls) < 2 || ls[1] != c.want {
+			bad = append(bad, fmt.Sprintf("%v: exit %d, second line %q, want %q: %s", c.args[1:], code, strings.Join(ls[1:min(2, len(ls))], ""), c.want, firstLine(se)))
+		}
+	}
+	os.RemoveAll(filepath.Join(e.dir, "notags"))
 	bad = append(bad, e2eStale(e, "good")...)
 	bad = append(bad, e2eCustomCLI(repo, e)...)
 	// several converters sharing one file: one header, one constraint line, and the package still compiles
@@ -528,6 +565,31 @@ func e2eC15(repo, dir string, vals map[string]string) ([]string, error) {
 			bad = append(bad, fmt.Sprintf("output directory %q: exit %d, package clause is not `package %s`: %s", dirName, code, want, firstLine(se)))
 		}
 	}
+	// @cwd/ output into a sibling directory whose name merely starts like the declaring directory's
+	e.write("pre/conv/in.go", "package conv\n\n// goverter:converter\n// goverter:output:file @cwd/pre/convgen/generated.go\ntype C interface {\n\tConvert(source In) Out\n}\ntype In struct{ A int }\ntype Out struct{ A int }\n")
+	e.write("pre/convgen/doc.go", "package shared\n")
+	code, _, se = e.run("gen", "./pre/conv")
+	if b, _ := os.ReadFile(filepath.Join(e.dir, "pre/convgen/generated.go")); code != 0 || !strings.Contains(string(b), "\npackage shared\n") {
+		bad = append(bad, "@cwd/ output into the sibling directory convgen of conv (existing package shared): exit "+fmt.Sprint(code)+", package clause is not the existing package's: "+firstLine(se))
+	}
+	os.RemoveAll(filepath.Join(e.dir, "pre"))
+	// the modes are requested before the umask: a stricter umask of the process still applies
+	e.write("um/in.go", "package um\n\n// goverter:converter\ntype C interface {\n\tConvert(source In) Out\n}\ntype In struct{ A int }\ntype Out struct{ A int }\n")
+	for _, um := range []struct{ mask, file, dir string }{{"027", "-rw-r-----", "drwxr-x---"}, {"077", "-rw-------", "drwx------"}} {
+		os.RemoveAll(filepath.Join(e.dir, "um/generated"))
+		cmd := exec.Command("sh", "-c", "umask "+um.mask+" && exec \"$0\" gen ./um", e.bin)
+		cmd.Dir = e.dir
+		cmd.Env = append(os.Environ(), "GOFLAGS=-mod=mod", "GOPROXY=off", "GOSUMDB=off", "GOTOOLCHAIN=local")
+		out, err := cmd.CombinedOutput()
+		fi, err1 := os.Stat(filepath.Join(e.dir, "um/generated/generated.go"))
+		di, err2 := os.Stat(filepath.Join(e.dir, "um/generated"))
+		if err != nil || err1 != nil || err2 != nil {
+			bad = append(bad, "run under umask "+um.mask+" fails: "+firstLine(string(out)))
+		} else if fi.Mode().String() != um.file || di.Mode().String() != um.dir {
+			bad = append(bad, fmt.Sprintf("under umask %s the new file is %s and the new directory %s (want %s, %s: 0644 / 0755 before umask)", um.mask, fi.Mode(), di.Mode(), um.file, um.dir))
+		}
+	}
+	os.RemoveAll(filepath.Join(e.dir, "um"))
 	// @cwd/ with a relative -cwd lands under the working directory
 	sub, err2 := newE2E(repo, filepath.Join(dir, "rel"))
 	if err2 == nil {
@@ -591,6 +653,31 @@ func e2eC09(repo, dir string, vals map[string]string) ([]string, error) {
 	if len(outs) > 1 {
 		bad = append(bad, fmt.Sprintf("%d different outcomes in 16 fresh processes for one extend pattern matching several functions of one signature", len(outs)))
 	}
+	// two faulty packages of the same name in different directories: the reported fault does not depend on the
+	// order, repetition or overlap of the patterns
+	for _, v := range []string{"v1", "v2"} {
+		e.write("same/"+v+"/conv/in.go", "package conv\n\n// goverter:converter\n// goverter:bogus"+v+"\ntype C interface {\n\tConvert(source In) Out\n}\ntype In struct{ A int }\ntype Out struct{ A int }\n")
+	}
+	souts := map[string]bool{}
+	for _, pats := range [][]string{{"./same/v1/conv", "./same/v2/conv"}, {"./same/v2/conv", "./same/v1/conv"}, {"./same/v2/conv", "./same/..."}, {"./same/..."}, {"./same/v2/conv", "./same/v2/conv", "./same/v1/conv"}} {
+		code, _, se := e.run(append([]string{"gen"}, pats...)...)
+		souts[fmt.Sprintf("%d|%s", code, se)] = true
+	}
+	if len(souts) > 1 {
+		bad = append(bad, fmt.Sprintf("%d different diagnostics for one set of two faulty packages named alike, depending on the pattern order", len(souts)))
+	}
+	os.RemoveAll(filepath.Join(e.dir, "same"))
+	// several faulty variables in one goverter:variables block: the reported one must not depend on the process
+	e.write("vb/in.go", "package vb\n\ntype A struct{ X int }\ntype B struct{ X int }\n\n// goverter:variables\nvar (\n\t// goverter:bogusB\n\tToB func(A) B\n\t// goverter:bogusC\n\tToC func(A) B\n\t// goverter:bogusD\n\tToD func(A) B\n\t// goverter:bogusE\n\tToE func(A) B\n)\n")
+	vouts := map[string]bool{}
+	for i := 0; i < 16; i++ {
+		code, _, se := e.run("gen", "./vb")
+		vouts[fmt.Sprintf("%d|%s", code, se)] = true
+	}
+	if len(vouts) > 1 {
+		bad = append(bad, fmt.Sprintf("%d different diagnostics in 16 fresh processes for one variables block with several faulty variables", len(vouts)))
+	}
+	os.RemoveAll(filepath.Join(e.dir, "vb"))
 	// the way the working directory is given does not change where @cwd/ output lands
 	if sub, err2 := newE2E(repo, filepath.Join(dir, "cwdforms")); err2 == nil {
 		mod := "package conv\n\n// goverter:converter\n// goverter:output:file @cwd/gen/out.go\n// goverter:output:package cwdmod/gen\ntype C interface {\n\tConvert(source In) Out\n}\ntype In struct{ A int }\ntype Out struct{ A int }\n"
@@ -747,6 +834,13 @@ func e2eC19(repo, dir string, vals map[string]string) ([]string, error) {
 	e.write("rep2/in.go", "package rep2\n\n// goverter:converter\n// goverter:ignoreMissing no\n// goverter:ignoreMissing yes\n// goverter:ignoreMissing no\ntype C interface {\n\tConvert(source In) Out\n}\ntype In struct{ A int }\ntype Out struct{ A, Missing int }\n")
 	if code, _, _ := e.run("gen", "./rep2"); code != 1 {
 		bad = append(bad, "ignoreMissing no / yes / no does not end as no")
+	}
+	// a grouped type declaration with a (marker-free) doc comment of its own: the specs are still scanned
+	e.write("grp/in.go", "package grp\n\n// The converters of this package.\ntype (\n\t// goverter:converter\n\tGrouped interface {\n\t\tConvert(source In) Out\n\t}\n\t// In is the source.\n\tIn struct{ A int }\n\tOut struct{ A int }\n)\n")
+	code, _, se = e.run("gen", "./grp")
+	b, _ = os.ReadFile(filepath.Join(e.dir, "grp/generated/generated.go"))
+	if code != 0 || !strings.Contains(string(b), "type GroupedImpl struct") {
+		bad = append(bad, "marked interface inside a documented `type ( ... )` group is not generated: "+firstLine(se))
 	}
 	// trailing comments and detached comments are no settings
 	e.write("trail/in.go", "package trail\n\n// goverter:ignoreMissing\n\n// goverter:converter\ntype C interface {\n\tConvert(source In) Out // goverter:ignore Missing\n}\ntype In struct{ A int }\ntype Out struct{ A, Missing int }\n")
